@@ -8,8 +8,11 @@
   below the length.  `applyA` / `runTreeA` / `feedFromA` … are the semantics on such abstract
   stores; they mention neither `dynamic` nor `onDemand` nor `deleteFrees`.
 
-  Refinement theorems: for a machine passing `safeCheck` (C03) whose expressions do not index into
-  buffers (`idxFreeCheck`), from a store satisfying the C03 invariant, every API call of the
+  Refinement theorems: for a machine passing `safeCheck` (C03) whose index expressions `s[i]` are
+  bounds-checked (the default: the check is against the current length, so only bytes below the
+  length are ever read) or absent (`idxFreeCheck`; with `-funsafe-string-indexing` an index at or
+  beyond the length reads stale or uninitialised bytes, which do depend on where the buffer lives),
+  from a store satisfying the C03 invariant, every API call of the
   concrete model — `start`, `feed` on any chunk from any position, `end` — returns the code and
   cursor the abstract call returns and leaves a store whose abstraction is the abstract result.
   Storage independence is the corollary: two option sets that differ only in the storage options
@@ -19,10 +22,30 @@ import NmfuProps.C03
 import NmfuProps.C12
 namespace Nmfu
 
-/-! ### Expressions without index reads do not see the buffers' bytes -/
+/-! ### Expressions see the buffers only below their length (or not at all) -/
 
-theorem eval_idxFree (ρ1 ρ2 : Env) (ho : ρ1.outVal = ρ2.outVal) (hl : ρ1.lenVal = ρ2.lenVal)
-    (hla : ρ1.last = ρ2.last) : ∀ e : IExpr, e.idxFree = true → eval ρ1 e = eval ρ2 e := by
+/-- an expression the storage-free semantics can evaluate: no index read, or bounds-checked ones -/
+def exprOK (unsafeIdx : Bool) (e : IExpr) : Bool := e.idxFree || !unsafeIdx
+
+theorem exprOK_bin (u : Bool) (op : BinOp) (f : Bool) (l r : IExpr) (h : exprOK u (.bin op f l r) = true) :
+    exprOK u l = true ∧ exprOK u r = true := by
+  simp only [exprOK, IExpr.idxFree, Bool.or_eq_true, Bool.and_eq_true, Bool.not_eq_true'] at h ⊢
+  rcases h with h | h
+  · exact ⟨Or.inl h.1, Or.inl h.2⟩
+  · exact ⟨Or.inr h, Or.inr h⟩
+
+theorem exprOK_idx (u : Bool) (i : Nat) (e : IExpr) (h : exprOK u (.idx i e) = true) :
+    u = false ∧ exprOK u e = true := by
+  simp only [exprOK, IExpr.idxFree, Bool.false_or, Bool.not_eq_true', Bool.or_eq_true] at h ⊢
+  exact ⟨h, Or.inr h⟩
+
+/-- Two environments that agree on scalars, lengths, `$last`, the indexing mode, and on the bytes
+    below each length evaluate alike every expression that has no index read or whose index reads are
+    bounds-checked. -/
+theorem eval_agree (ρ1 ρ2 : Env) (ho : ρ1.outVal = ρ2.outVal) (hl : ρ1.lenVal = ρ2.lenVal)
+    (hla : ρ1.last = ρ2.last) (hu : ρ1.unsafeIdx = ρ2.unsafeIdx)
+    (hb : ∀ i (k : Int), 0 ≤ k → k < (ρ1.lenVal i).v → ρ1.byteAt i k.toNat = ρ2.byteAt i k.toNat) :
+    ∀ e : IExpr, exprOK ρ1.unsafeIdx e = true → eval ρ1 e = eval ρ2 e := by
   intro e
   induction e with
   | lit v => intro _; rfl
@@ -31,11 +54,26 @@ theorem eval_idxFree (ρ1 ρ2 : Env) (ho : ρ1.outVal = ρ2.outVal) (hl : ρ1.le
   | out i => intro _; simp [eval, ho]
   | len i => intro _; simp [eval, hl]
   | last => intro _; simp [eval, hla]
-  | idx i e _ => intro h; simp [IExpr.idxFree] at h
+  | idx i e ih =>
+    intro h
+    obtain ⟨hu1, he⟩ := exprOK_idx _ i e h
+    have hu2 : ρ2.unsafeIdx = false := by rw [← hu]; exact hu1
+    simp only [eval, ih he, hu1, hu2, Bool.false_eq_true, if_false]
+    cases hev : eval ρ2 e with
+    | none => rfl
+    | some iv =>
+      simp only
+      rw [← hl]
+      by_cases hc : (decide (0 ≤ (CTy.usual iv.ty CTy.i32).wrap iv.v) &&
+          decide ((CTy.usual iv.ty CTy.i32).wrap iv.v < (ρ1.lenVal i).v)) = true
+      · rw [if_pos hc, if_pos hc]
+        simp only [Bool.and_eq_true, decide_eq_true_eq] at hc
+        rw [hb i _ hc.1 hc.2]
+      · rw [if_neg hc, if_neg hc]
   | bin op f l r ihl ihr =>
     intro h
-    simp only [IExpr.idxFree, Bool.and_eq_true] at h
-    cases op <;> simp only [eval, ihl h.1, ihr h.2]
+    obtain ⟨h1, h2⟩ := exprOK_bin _ op f l r h
+    cases op <;> simp only [eval, ihl h1, ihr h2]
 
 /-! ### The abstraction -/
 
@@ -65,24 +103,51 @@ def Abs.addFault (a : Abs) (m : String) : Abs :=
 def Abs.setContent (a : Abs) (i : Nat) (l : List (Option Nat)) : Abs :=
   { a with content := fun j => if j = i ∧ i < a.nstr then l else a.content j }
 
-/-- what expressions can read of an abstract store (no bytes) -/
+/-- what expressions can read of an abstract store (bytes below the length only) -/
 def RtCtx.envA (c : RtCtx) (a : Abs) (inval : Nat) : Env where
   outVal := fun i => ⟨(c.ty i).cty c.ro.u8 c.ro.packed, a.scalars.getD i 0⟩
   lenVal := fun i => ⟨counterTy (c.ty i), (a.content i).length⟩
   size := fun i => (c.ty i).size
-  byteAt := fun _ _ => none
+  byteAt := fun i k =>
+    match (a.content i)[k]? with
+    | some (some v) => some ⟨CTy.u8, v % 256⟩
+    | _ => none
   last := ⟨CTy.u8, inval⟩
   unsafeIdx := c.ro.unsafeIdx
 
 theorem content_length (b : StrBuf) : b.content.length = b.counter := by
   simp [StrBuf.content]
 
-theorem eval_abs (c : RtCtx) (σ : CState) (e : IExpr) (h : e.idxFree = true) :
+theorem content_getElem? (b : StrBuf) (k : Nat) (hk : k < b.counter) :
+    b.content[k]? = some (b.bytes.getD k none) := by
+  simp [StrBuf.content, hk]
+
+/-- below the length, the abstract store shows the byte the concrete buffer holds -/
+theorem byteAt_abs (c : RtCtx) (σ : CState) (h : Inv c σ) (i : Nat) (k : Int) (h0 : 0 ≤ k)
+    (hk : k < ((c.env σ 0).lenVal i).v) :
+    (c.env σ 0).byteAt i k.toNat = (c.envA σ.abs 0).byteAt i k.toNat := by
+  have hk' : k.toNat < (σ.str i).counter := by
+    have : ((c.env σ 0).lenVal i).v = ((σ.str i).counter : Int) := rfl
+    rw [this] at hk
+    omega
+  have hb := h.2 i
+  have hcont : ((σ.abs).content i)[k.toNat]? = some ((σ.str i).bytes.getD k.toNat none) :=
+    content_getElem? (σ.str i) k.toNat hk'
+  simp only [RtCtx.env, RtCtx.envA, hcont]
+  cases ha : (σ.str i).alloc with
+  | null => have := hb.2.2.2.2 ha; omega
+  | freed => exact absurd ha hb.2.2.2.1
+  | inStruct => simp only; cases (σ.str i).bytes.getD k.toNat none <;> rfl
+  | heap => simp only; cases (σ.str i).bytes.getD k.toNat none <;> rfl
+
+theorem eval_abs (c : RtCtx) (σ : CState) (hinv : Inv c σ) (e : IExpr) (h : exprOK c.ro.unsafeIdx e = true) :
     eval (c.env σ 0) e = eval (c.envA σ.abs 0) e := by
-  apply eval_idxFree _ _ _ _ _ e h
+  apply eval_agree _ _ _ _ _ _ _ e h
   · rfl
   · funext i; simp [RtCtx.env, RtCtx.envA, CState.abs, content_length]
   · rfl
+  · rfl
+  · intro i k h0 hk; exact byteAt_abs c σ hinv i k h0 hk
 
 /-- The abstract effect of an action event. -/
 def RtCtx.applyA (c : RtCtx) (a : Abs) : AEv → Abs
@@ -322,12 +387,12 @@ theorem abs_apply_append (c : RtCtx) (hs : c.SizesOK) (σ : CState) (isStart : B
   rfl
 
 theorem abs_apply_appendC (c : RtCtx) (hs : c.SizesOK) (σ : CState) (isStart : Bool) (i : Nat)
-    (e : IExpr) (he : e.idxFree = true) (h : Inv c σ) (hroom : (σ.str i).counter < (c.ty i).cap) :
+    (e : IExpr) (he : exprOK c.ro.unsafeIdx e = true) (h : Inv c σ) (hroom : (σ.str i).counter < (c.ty i).cap) :
     (c.apply σ isStart (.appendC i e)).abs = c.applyA σ.abs (.appendC i e) := by
   obtain ⟨h1, hc, hw⟩ := inv_onDemandAlloc c σ i h
   have hi : i < σ.strs.size := idx_lt_of_size_pos c σ i h (by have := (hs i).1; omega)
   have hev : eval (c.env (c.onDemandAlloc σ i) 0) e = eval (c.envA σ.abs 0) e := by
-    rw [eval_abs c _ e he, abs_onDemandAlloc c σ i h]
+    rw [eval_abs c _ h1 e he, abs_onDemandAlloc c σ i h]
   simp only [RtCtx.apply, RtCtx.applyA]
   rw [hev]
   cases hv : eval (c.envA σ.abs 0) e with
@@ -348,10 +413,10 @@ theorem abs_apply_appendC (c : RtCtx) (hs : c.SizesOK) (σ : CState) (isStart : 
     rfl
 
 theorem abs_apply_set (c : RtCtx) (σ : CState) (isStart : Bool) (i : Nat) (e : IExpr)
-    (he : e.idxFree = true) :
+    (he : exprOK c.ro.unsafeIdx e = true) (h : Inv c σ) :
     (c.apply σ isStart (.set i e)).abs = c.applyA σ.abs (.set i e) := by
   simp only [RtCtx.apply, RtCtx.applyA]
-  rw [eval_abs c σ e he]
+  rw [eval_abs c σ h e he]
   cases eval (c.envA σ.abs 0) e with
   | none => simp only []; rw [abs_addFault]
   | some v => rfl
@@ -565,13 +630,29 @@ theorem abs_apply_plain (c : RtCtx) (σ : CState) (isStart : Bool) (a : AEv)
 
 /-! ### Questions, trees -/
 
+/-- every expression of the tree is one the storage-free semantics can evaluate -/
+def treeOK (u : Bool) : CTree → Bool
+  | .emit (.set _ e) k => exprOK u e && treeOK u k
+  | .emit (.appendC _ e) k => exprOK u e && treeOK u k
+  | .emit _ k => treeOK u k
+  | .ask (.cond e) kt kf => exprOK u e && treeOK u kt && treeOK u kf
+  | .ask _ kt kf => treeOK u kt && treeOK u kf
+  | .leaf _ => true
+
+theorem treeOK_of_idxFree (u : Bool) (t : CTree) (h : treeIdxFree t = true) : treeOK u t = true := by
+  fun_induction treeIdxFree t <;> simp_all [treeOK, exprOK, treeIdxFree]
+
+theorem treeOK_of_checked (t : CTree) : treeOK false t = true := by
+  fun_induction treeOK false t <;> simp_all [treeOK, exprOK]
+
+
 theorem answer_abs_full (c : RtCtx) (σ : CState) (i : Nat) :
     c.answer σ (.full i) = c.answerA σ.abs (.full i) := by
   simp only [RtCtx.answer, RtCtx.answerA, CState.abs, content_length]
 
-theorem answer_abs_cond (c : RtCtx) (σ : CState) (e : IExpr) (he : e.idxFree = true) :
+theorem answer_abs_cond (c : RtCtx) (σ : CState) (h : Inv c σ) (e : IExpr) (he : exprOK c.ro.unsafeIdx e = true) :
     c.answer σ (.cond e) = c.answerA σ.abs (.cond e) := by
-  simp only [RtCtx.answer, RtCtx.answerA, eval_abs c σ e he]
+  simp only [RtCtx.answer, RtCtx.answerA, eval_abs c σ h e he]
   cases eval (c.envA σ.abs 0) e with
   | none => rfl
   | some v => rfl
@@ -579,11 +660,11 @@ theorem answer_abs_cond (c : RtCtx) (σ : CState) (e : IExpr) (he : e.idxFree = 
 theorem abs_asked_full (c : RtCtx) (σ : CState) (isStart : Bool) (i : Nat) (v : Bool) :
     (c.applyEv isStart σ (.asked (.full i) v)).abs = c.applyEvA σ.abs (.asked (.full i) v) := rfl
 
-theorem abs_asked_cond (c : RtCtx) (σ : CState) (isStart : Bool) (e : IExpr) (v : Bool)
-    (he : e.idxFree = true) :
+theorem abs_asked_cond (c : RtCtx) (σ : CState) (h : Inv c σ) (isStart : Bool) (e : IExpr) (v : Bool)
+    (he : exprOK c.ro.unsafeIdx e = true) :
     (c.applyEv isStart σ (.asked (.cond e) v)).abs = c.applyEvA σ.abs (.asked (.cond e) v) := by
   simp only [RtCtx.applyEv, RtCtx.applyEvA]
-  rw [answer_abs_cond c σ e he]
+  rw [answer_abs_cond c σ h e he]
   cases c.answerA σ.abs (.cond e) with
   | none => simp only []; rw [abs_addFault]
   | some _ => rfl
@@ -593,7 +674,7 @@ theorem abs_asked_cond (c : RtCtx) (σ : CState) (isStart : Bool) (e : IExpr) (v
     answers, hence the same path and leaf, and the abstraction of the result is the abstract
     result. -/
 theorem runTree_abs (c : RtCtx) (hs : c.SizesOK) (isStart : Bool) (t : CTree) :
-    ∀ σ, guardedB c t = true → treeIdxFree t = true → Inv c σ →
+    ∀ σ, guardedB c t = true → treeOK c.ro.unsafeIdx t = true → Inv c σ →
       (c.runTree isStart t σ).1.abs = (c.runTreeA t σ.abs).1 ∧
       (c.runTree isStart t σ).2 = (c.runTreeA t σ.abs).2 := by
   fun_induction guardedB c t with
@@ -602,7 +683,7 @@ theorem runTree_abs (c : RtCtx) (hs : c.SizesOK) (isStart : Bool) (t : CTree) :
     simp only [Bool.and_eq_true, beq_iff_eq] at hg
     obtain ⟨⟨hij, hgt⟩, hgk⟩ := hg
     subst hij
-    simp only [treeIdxFree, Bool.and_eq_true] at hf
+    simp only [treeOK, Bool.and_eq_true] at hf
     simp only [RtCtx.runTree, RtCtx.runTreeA]
     rw [← answer_abs_full c σ i]
     split
@@ -619,7 +700,7 @@ theorem runTree_abs (c : RtCtx) (hs : c.SizesOK) (isStart : Bool) (t : CTree) :
     simp only [Bool.and_eq_true, beq_iff_eq] at hg
     obtain ⟨⟨hij, hgt⟩, hgk⟩ := hg
     subst hij
-    simp only [treeIdxFree, Bool.and_eq_true] at hf
+    simp only [treeOK, Bool.and_eq_true] at hf
     simp only [RtCtx.runTree, RtCtx.runTreeA]
     rw [← answer_abs_full c σ i]
     split
@@ -637,7 +718,7 @@ theorem runTree_abs (c : RtCtx) (hs : c.SizesOK) (isStart : Bool) (t : CTree) :
     simp only [RtCtx.runTree, RtCtx.runTreeA]
     cases q with
     | full i =>
-      simp only [treeIdxFree, Bool.and_eq_true] at hf
+      simp only [treeOK, Bool.and_eq_true] at hf
       rw [← answer_abs_full c σ i]
       split
       · have := ihkt (c.applyEv isStart σ (.asked (.full i) true)) hg.1 hf.1 (inv_asked c σ isStart (.full i) true h)
@@ -645,19 +726,19 @@ theorem runTree_abs (c : RtCtx) (hs : c.SizesOK) (isStart : Bool) (t : CTree) :
       · have := ihkf (c.applyEv isStart σ (.asked (.full i) false)) hg.2 hf.2 (inv_asked c σ isStart (.full i) false h)
         rwa [abs_asked_full] at this
     | cond e =>
-      simp only [treeIdxFree, Bool.and_eq_true] at hf
-      rw [← answer_abs_cond c σ e hf.1.1]
+      simp only [treeOK, Bool.and_eq_true] at hf
+      rw [← answer_abs_cond c σ h e hf.1.1]
       split
       · have := ihkt (c.applyEv isStart σ (.asked (.cond e) true)) hg.1 hf.1.2 (inv_asked c σ isStart (.cond e) true h)
-        rwa [abs_asked_cond c σ isStart e true hf.1.1] at this
+        rwa [abs_asked_cond c σ h isStart e true hf.1.1] at this
       · have := ihkf (c.applyEv isStart σ (.asked (.cond e) false)) hg.2 hf.2 (inv_asked c σ isStart (.cond e) false h)
-        rwa [abs_asked_cond c σ isStart e false hf.1.1] at this
+        rwa [abs_asked_cond c σ h isStart e false hf.1.1] at this
   | case4 => intro σ hg; exact absurd hg (by simp)
   | case5 => intro σ hg; exact absurd hg (by simp)
   | case6 i bs k ihk =>
     intro σ hg hf h
     simp only [Bool.and_eq_true, decide_eq_true_eq] at hg
-    simp only [treeIdxFree] at hf
+    simp only [treeOK] at hf
     simp only [RtCtx.runTree, RtCtx.runTreeA, RtCtx.applyEv, RtCtx.applyEvA]
     have := ihk (c.apply σ isStart (.setStr i bs)) hg.2 hf (inv_apply_setStr c hs σ isStart i bs h hg.1)
     rwa [abs_apply_setStr c hs σ isStart i bs h hg.1] at this
@@ -666,38 +747,38 @@ theorem runTree_abs (c : RtCtx) (hs : c.SizesOK) (isStart : Bool) (t : CTree) :
     simp only [RtCtx.runTree, RtCtx.runTreeA, RtCtx.applyEv, RtCtx.applyEvA]
     cases a with
     | delete i =>
-      simp only [treeIdxFree] at hf
+      simp only [treeOK] at hf
       have := ihk (c.apply σ isStart (.delete i)) hg hf (inv_apply_delete c hs σ isStart i h)
       rwa [abs_apply_delete c hs σ isStart i h] at this
     | append _ _ => simp_all
     | appendC _ _ => simp_all
     | setStr _ _ => simp_all
     | set i e =>
-      simp only [treeIdxFree, Bool.and_eq_true] at hf
+      simp only [treeOK, Bool.and_eq_true] at hf
       have := ihk (c.apply σ isStart (.set i e)) hg hf.2 (inv_apply_other c σ isStart (.set i e) h trivial)
-      rwa [abs_apply_set c σ isStart i e hf.1] at this
+      rwa [abs_apply_set c σ isStart i e hf.1 h] at this
     | hook n arg =>
-      simp only [treeIdxFree] at hf
+      simp only [treeOK] at hf
       have := ihk (c.apply σ isStart (.hook n arg)) hg hf (inv_apply_other c σ isStart (.hook n arg) h trivial)
       rwa [abs_apply_plain c σ isStart (.hook n arg) trivial] at this
     | brk =>
-      simp only [treeIdxFree] at hf
+      simp only [treeOK] at hf
       have := ihk (c.apply σ isStart (.brk)) hg hf (inv_apply_other c σ isStart (.brk) h trivial)
       rwa [abs_apply_plain c σ isStart (.brk) trivial] at this
     | ret x =>
-      simp only [treeIdxFree] at hf
+      simp only [treeOK] at hf
       have := ihk (c.apply σ isStart (.ret x)) hg hf (inv_apply_other c σ isStart (.ret x) h trivial)
       rwa [abs_apply_plain c σ isStart (.ret x) trivial] at this
     | yield x =>
-      simp only [treeIdxFree] at hf
+      simp only [treeOK] at hf
       have := ihk (c.apply σ isStart (.yield x)) hg hf (inv_apply_other c σ isStart (.yield x) h trivial)
       rwa [abs_apply_plain c σ isStart (.yield x) trivial] at this
     | opt x =>
-      simp only [treeIdxFree] at hf
+      simp only [treeOK] at hf
       have := ihk (c.apply σ isStart (.opt x)) hg hf (inv_apply_other c σ isStart (.opt x) h trivial)
       rwa [abs_apply_plain c σ isStart (.opt x) trivial] at this
     | raised =>
-      simp only [treeIdxFree] at hf
+      simp only [treeOK] at hf
       have := ihk (c.apply σ isStart (.raised)) hg hf (inv_apply_other c σ isStart (.raised) h trivial)
       rwa [abs_apply_plain c σ isStart (.raised) trivial] at this
   | case8 l => intro σ _ _ _; exact ⟨rfl, rfl⟩
@@ -733,12 +814,23 @@ def RtCtx.endCallA (c : RtCtx) (a : Abs) : Abs × String :=
   | .ret code st _ => ({ a' with state := st }, code)
   | .yielded code st _ => ({ a' with state := st }, "YIELD_" ++ code)
 
-/-- No call tree indexes into a buffer (for symbols below 257). -/
+/-- Every expression of every call tree is one the storage-free semantics can evaluate (symbols
+    below 257): no index read, or the indexing is bounds-checked. -/
 def RtCtx.CallsIdxFree (c : RtCtx) : Prop :=
-  ∀ (s : Int) (x : Nat), x < nSym → treeIdxFree (c.M.call c.semOpts s x) = true
+  ∀ (s : Int) (x : Nat), x < nSym → treeOK c.ro.unsafeIdx (c.M.call c.semOpts s x) = true
 
-theorem callsIdxFree_of_check (c : RtCtx) (h : c.idxFreeCheck = true) : c.CallsIdxFree := by
+/-- the hypothesis on index expressions: there are none, or they are bounds-checked -/
+def RtCtx.IdxOK (c : RtCtx) : Prop := c.idxFreeCheck = true ∨ c.ro.unsafeIdx = false
+
+theorem callsIdxFree_of_check (c : RtCtx) (h : c.IdxOK) : c.CallsIdxFree := by
   intro s x hx
+  by_cases hu : c.ro.unsafeIdx = false
+  · rw [hu]; exact treeOK_of_checked _
+  have h : c.idxFreeCheck = true := by
+    rcases h with h | h
+    · exact h
+    · exact absurd h hu
+  apply treeOK_of_idxFree
   by_cases hs : s < 0 ∨ s.toNat ≥ c.M.states.size
   · have : c.M.call c.semOpts s x = .leaf (.ret "FAIL" s 0) := by
       simp only [Machine.call, Machine.stepFuel, Machine.dispatch]
@@ -920,16 +1012,18 @@ theorem initStore_abs (c : RtCtx) (h : c.safeCheck = true) (σ0 : CState) :
         simp [CState.str, RtCtx.initStore, Array.getD_eq_getD_getElem?, hj]
       rw [this, if_neg hj]; rfl
 
-theorem start_abs (c : RtCtx) (hsafe : c.safeCheck = true) (hfree : c.idxFreeCheck = true)
+theorem start_abs (c : RtCtx) (hsafe : c.safeCheck = true) (hfree : c.IdxOK)
     (σ0 : CState) (hm : σ0.memFault = false) :
     (c.start σ0).1.abs = (c.startA σ0.scalars σ0.fault).1 ∧
     (c.start σ0).2 = (c.startA σ0.scalars σ0.fault).2 ∧ Inv c (c.start σ0).1 := by
   have hg : guardedB c c.startTree = true := by
     simp only [RtCtx.safeCheck, Bool.and_eq_true] at hsafe
     exact hsafe.2
-  have hf : treeIdxFree c.startTree = true := by
-    simp only [RtCtx.idxFreeCheck, Bool.and_eq_true] at hfree
-    exact hfree.2
+  have hf : treeOK c.ro.unsafeIdx c.startTree = true := by
+    rcases hfree with hfree | hfree
+    · simp only [RtCtx.idxFreeCheck, Bool.and_eq_true] at hfree
+      exact treeOK_of_idxFree _ _ hfree.2
+    · rw [hfree]; exact treeOK_of_checked _
   have hs := sizesOK_of_safeCheck c hsafe
   have h0 := initStore_inv c hsafe σ0 hm
   have hr := runTree_abs c hs true c.startTree (c.initStore σ0) hg hf h0
@@ -1013,13 +1107,13 @@ theorem runOps_abs (c : RtCtx) (hs : c.SizesOK) (hg : c.CallsGuarded) (hf : c.Ca
     rw [h1] at k1 k2
     exact ⟨k1, by rw [h2, k2], k3⟩
 
-/-- **Refinement to the storage-free semantics.**  For a machine passing `safeCheck` and
-    `idxFreeCheck`, whatever the storage options, whatever memory the state struct occupied, for every
+/-- **Refinement to the storage-free semantics.**  For a machine passing `safeCheck` whose index
+    expressions are bounds-checked or absent (`IdxOK`), whatever the storage options, whatever memory the state struct occupied, for every
     sequence of API calls after `start()` — `feed` on any chunk from any cursor position, `end` —
     every call returns the code and cursor the abstract semantics returns, and the observable
     content of the state struct (state number, scalars, each buffer's length and bytes below its
     length) is the abstract store; no memory fault occurs on the way. -/
-theorem C12_session_refines (c : RtCtx) (hsafe : c.safeCheck = true) (hfree : c.idxFreeCheck = true)
+theorem C12_session_refines (c : RtCtx) (hsafe : c.safeCheck = true) (hfree : c.IdxOK)
     (σ0 : CState) (hm : σ0.memFault = false) (ops : List ApiOp) (hb : ∀ op ∈ ops, op.bytesOK) :
     (c.session σ0 ops).1.abs = (c.sessionA σ0.scalars σ0.fault ops).1 ∧
     (c.session σ0 ops).2 = (c.sessionA σ0.scalars σ0.fault ops).2 ∧
@@ -1120,15 +1214,15 @@ theorem safeCheck_storage (c : RtCtx) (d o f : Bool) : (c.withStorage d o f).saf
 theorem idxFreeCheck_storage (c : RtCtx) (d o f : Bool) :
     (c.withStorage d o f).idxFreeCheck = c.idxFreeCheck := rfl
 
-/-- **Where strings live never changes what is parsed.**  Take a machine passing `safeCheck` and
-    `idxFreeCheck`, any two settings of the storage options (in the struct, on the heap, on the
+/-- **Where strings live never changes what is parsed.**  Take a machine passing `safeCheck` whose
+    index expressions are bounds-checked or absent (`IdxOK`), any two settings of the storage options (in the struct, on the heap, on the
     heap on demand, freed on delete), any two initial memories of the state struct that agree on
     the scalar outputs, and any sequence of API calls: every call returns the same code and the
     same cursor under both settings, and after every such sequence the state number, the scalar
     outputs, and the length and content of every string / raw output are the same.  (Hooks read
     exactly that part of the struct, and the hook events are part of the common call trees.) -/
 theorem C12_storage_independent (c : RtCtx) (d o f : Bool)
-    (hsafe : c.safeCheck = true) (hfree : c.idxFreeCheck = true)
+    (hsafe : c.safeCheck = true) (hfree : c.IdxOK)
     (σ0 σ0' : CState) (hm : σ0.memFault = false) (hm' : σ0'.memFault = false)
     (hsc : σ0.scalars = σ0'.scalars) (hfa : σ0.fault = σ0'.fault)
     (ops : List ApiOp) (hb : ∀ op ∈ ops, op.bytesOK) :
@@ -1136,7 +1230,7 @@ theorem C12_storage_independent (c : RtCtx) (d o f : Bool)
     ((c.withStorage d o f).session σ0' ops).1.abs = (c.session σ0 ops).1.abs := by
   obtain ⟨h1, h2, _⟩ := C12_session_refines c hsafe hfree σ0 hm ops hb
   obtain ⟨k1, k2, _⟩ := C12_session_refines (c.withStorage d o f)
-    (by rw [safeCheck_storage]; exact hsafe) (by rw [idxFreeCheck_storage]; exact hfree) σ0' hm' ops hb
+    (by rw [safeCheck_storage]; exact hsafe) hfree σ0' hm' ops hb
   rw [sessionA_storage] at k1 k2
   rw [← hsc, ← hfa] at k1 k2
   exact ⟨by rw [k2, h2], by rw [k1, h1]⟩
